@@ -55,6 +55,8 @@ def run(cx):
     cx.guard(_r12d, cx, resize)
     cx.guard(_r12i, cx, resize, fit)
     cx.guard(param_purity, cx, "R12h", [(resize, params(resize)[1]), (fit, params(fit)[0])])
+    from rules.c10 import cache_fill_purity
+    cx.guard(cache_fill_purity, cx, "R12h", repo)
     cx.guard(_r12c, cx, fit)
     cx.guard(_r12b, cx, repo, titles, records)
     cx.guard(_r12e, cx, mk_line)
